@@ -144,3 +144,117 @@ func ruleExactLookup(c *Ctx, rule string, method *types.Func, keyField, column s
 		c.undecided(rule, "floor:lookup-implementations", token.NoPos, fmt.Sprintf("expected the PostgreSQL and in-memory implementations of the lookup, found %d", n))
 	}
 }
+
+// ---- the key that is reserved and looked up is the request's key (R07g, R14g) ----------------------------------
+//
+// executionContext.run reserves an idempotency key and searches the store for it: that key must be
+// Parameters.IdempotencyKey itself on every path — not a value that is sometimes empty although the request carries a
+// key (`recordedKey()` returning "" for previews): a preview would then skip the replay lookup and answer something
+// else than the real request (which is answered from the recorded log), and a real write would take effect twice.
+func ruleRequestKeyIsLookedUp(c *Ctx, rule string) {
+	m := c.cmdModel(rule)
+	if !m.ok {
+		return
+	}
+	n := 0
+	for _, fn := range m.fns {
+		allCalls(fn, func(ci ssa.CallInstruction) {
+			var keyVal ssa.Value
+			what := ""
+			if k, key, ok := m.takeKind(c, ci); ok && k == "referenceIks" {
+				keyVal, what = key, "reserved"
+			}
+			if call, ok := ci.(*ssa.Call); ok && isCallTo(call, m.readLogIK) && ifaceMethodOf(call) != nil && len(call.Call.Args) >= 2 {
+				keyVal, what = call.Call.Args[len(call.Call.Args)-1], "looked up in the store"
+			}
+			if keyVal == nil {
+				return
+			}
+			n++
+			c.seeFn(fn)
+			key := fmt.Sprintf("%s:key-%s-is-the-request-key", fnName(fn), strings.ReplaceAll(what, " ", "-"))
+			bad := notRequestKey(c, m, keyVal, 0, map[ssa.Value]bool{})
+			c.check(bad == "", rule, key, ci.Pos(), "the key "+what+" is Parameters.IdempotencyKey on every path",
+				"the idempotency key that is "+what+" is not always the request's key ("+bad+"): with DryRun (or whatever that value depends on) the replay lookup is skipped although the request carries a key — the preview answers a fresh execution where the real request is answered from its recorded log")
+		})
+	}
+	if n < 2 {
+		c.undecided(rule, "floor:key-uses", token.NoPos, fmt.Sprintf("expected the reservation and the store lookup of the idempotency key, found %d", n))
+	}
+}
+
+// notRequestKey: "" when every source of v is a read of Parameters.IdempotencyKey; otherwise what else it can be.
+func notRequestKey(c *Ctx, m *cmdModel, v ssa.Value, depth int, seen map[ssa.Value]bool) string {
+	if depth > 6 || seen[v] {
+		return ""
+	}
+	seen[v] = true
+	if _, ok := fieldRead(v, m.fIK); ok {
+		return ""
+	}
+	switch x := v.(type) {
+	case *ssa.Const:
+		if s, ok := constString(x); ok {
+			return fmt.Sprintf("the constant %q", s)
+		}
+	case *ssa.Phi:
+		for _, e := range x.Edges {
+			if bad := notRequestKey(c, m, e, depth+1, seen); bad != "" {
+				return bad
+			}
+		}
+		return ""
+	case *ssa.UnOp:
+		if x.Op == token.MUL {
+			if sv := singleStore(x.X); sv != nil {
+				return notRequestKey(c, m, sv, depth+1, seen)
+			}
+			if a, ok := x.X.(*ssa.Alloc); ok {
+				for _, r := range *a.Referrers() {
+					if st, ok := r.(*ssa.Store); ok && st.Addr == ssa.Value(a) {
+						if bad := notRequestKey(c, m, st.Val, depth+1, seen); bad != "" {
+							return bad
+						}
+					}
+				}
+				return ""
+			}
+		}
+	case *ssa.ChangeType:
+		return notRequestKey(c, m, x.X, depth+1, seen)
+	case *ssa.MakeInterface:
+		return notRequestKey(c, m, x.X, depth+1, seen)
+	case *ssa.Parameter:
+		// a helper's parameter: what its callers pass
+		fn := x.Parent()
+		idx := paramIndex(x)
+		nn := 0
+		for _, site := range c.CallersOf(fn) {
+			if site.Parent() == nil || idx < 0 || idx >= len(site.Common().Args) {
+				continue
+			}
+			if strings.HasSuffix(c.Fset.Position(site.Pos()).Filename, "_test.go") {
+				continue
+			}
+			nn++
+			if bad := notRequestKey(c, m, site.Common().Args[idx], depth+1, seen); bad != "" {
+				return bad
+			}
+		}
+		if nn > 0 {
+			return ""
+		}
+	case *ssa.Call:
+		if g := staticCallee(x); g != nil && inRepo(fnPkgPath(origin(g))) && len(g.Blocks) > 0 {
+			for _, b := range g.Blocks {
+				if r, ok := b.Instrs[len(b.Instrs)-1].(*ssa.Return); ok && len(r.Results) == 1 {
+					if bad := notRequestKey(c, m, r.Results[0], depth+1, seen); bad != "" {
+						return bad + ", returned by " + g.Name()
+					}
+				}
+			}
+			return ""
+		}
+	}
+	return "a value of another origin (" + v.Name() + ")"
+}
